@@ -232,7 +232,9 @@ def _handle_column_keywords(
         keywords.append(
             ast.keyword(
                 arg="doc",
-                value=cdd.shared.ast_utils.set_value(rstripped_dot_doc),
+                value=cdd.shared.ast_utils.set_value(
+                    rstripped_dot_doc, strip_quotes=False
+                ),
                 identifier=None,
             )
         )
